@@ -514,6 +514,13 @@ func (b *builder) seedGroup() {
 		mode := modes[(k/2)%len(modes)]
 		return &xcase{desc: "seed " + s.name, via: via, mode: mode, dict: streamDict(s.filter, s.parms), body: s.body, objs: seedObjs(s), plain: true}
 	})
+	// the same seeds through pdf.ReadAll with a limit below, at and above what they decode to
+	limits := []string{"limit=0", "limit=16", "limit=1048576"}
+	b.t.dims["readall_limits"] = limits
+	b.t.add("seed-readall", len(seeds)*len(limits), func(k int) *xcase {
+		s := seeds[k/len(limits)]
+		return &xcase{desc: "seed " + s.name + " through pdf.ReadAll", via: "readall", mode: limits[k%len(limits)], dict: streamDict(s.filter, s.parms), body: s.body, objs: seedObjs(s)}
+	})
 }
 
 // (2) one byte-level mutation of a seed body, every position
